@@ -23,6 +23,7 @@ from ..facts import (path_of, canon, holds, atoms_of_test, parse_atom,
                      key_paths)
 from .. import dataflow
 from ..resolve import Ctx
+from ..model import walk_own
 from . import common
 
 SERVER = 'slimta.smtp.server.Server'
@@ -229,6 +230,17 @@ def run(e: Engine, rep: Report):
              'by the constructor only (a withdrawn STARTTLS cannot come '
              'back, its callback cannot run twice)')
     c08.r88(e, rep, 'R7.10')
+    rep.rule('R7.11', 'what the command parser can hand to the dispatcher '
+             '(alphabet of the command patterns after the transformations '
+             'applied on the way) cannot spell the greeting pseudo-command '
+             'or the message-received callback (table PROTECTED_NAMES): '
+             'those run only when the server itself decides')
+    r711(e, rep)
+    rep.rule('R7.12', 'an exception that leaves a command handler ends the '
+             'session: no except arm around the dispatch resumes the main '
+             'loop (the handler may have been left half-way, with the '
+             'transaction flags set)')
+    r712(e, rep)
     rep.floor('R7.1', 10, 'callback sites')
     rep.floor('R7.3', 12, 'command handlers')
     rep.floor('R7.4', 10, 'mutable reply sends')
@@ -967,3 +979,141 @@ def r78(e: Engine, rep: Report):
     if nsites < 3:
         rep.error('anchor vanished: non-constant flag assignments in Server '
                   '(%d < 3)' % nsites)
+
+
+# ------------------------------------------------------------------ R7.11
+# names the server invokes on its own initiative only
+PROTECTED_NAMES = {'BANNER_': 'the greeting pseudo-command',
+                   'HAVE_DATA': 'the message-received callback'}
+
+
+def r711(e: Engine, rep: Report):
+    from .. import regexast as rx
+    rep.tables.add('c07.PROTECTED_NAMES')
+    IOMOD = 'slimta.smtp.io'
+    alpha = set()
+    npat = 0
+    for pname in ('command_pattern', 'command_arg_pattern'):
+        got = rx.module_pattern(e, IOMOD, pname)
+        if got is None:
+            continue
+        items = list(rx.parse(got[0], got[1]))
+        g1 = rx.find_group(items, 1)
+        if g1 is None:
+            continue
+        cs = rx.all_charsets(g1, got[1])
+        if any(c is None for c in cs):
+            rep.error('cannot read the alphabet of %s' % pname)
+            return
+        npat += 1
+        for c in cs:
+            alpha |= c
+    if npat < 2:
+        rep.error('anchor vanished: command patterns of slimta.smtp.io '
+                  '(%d < 2)' % npat)
+        return
+    # transformations between the match and the attribute lookup
+    fns = [e.method_ctx('slimta.smtp.io.IO', 'recv_command').func,
+           e.method_ctx(SERVER, '_handle_command').func]
+    rep.functions.update(f.qname for f in fns)
+
+    def apply(fn, alpha):
+        calls = [x for x in walk_own(fn.node) if isinstance(x, ast.Call) and
+                 isinstance(x.func, ast.Attribute)]
+        # in source order
+        calls.sort(key=lambda x: (x.lineno, x.col_offset))
+        for x in calls:
+            nm = x.func.attr
+            if nm == 'upper':
+                alpha = {ord(chr(c).upper()) if chr(c).upper() != chr(c)
+                         and len(chr(c).upper()) == 1 else c for c in alpha}
+            elif nm == 'lower':
+                alpha = {ord(chr(c).lower()) if len(chr(c).lower()) == 1
+                         else c for c in alpha}
+            elif nm in ('replace', 'translate', 'maketrans'):
+                ok = nm == 'replace' and len(x.args) >= 2 and all(
+                    isinstance(a, ast.Constant) and
+                    isinstance(a.value, (str, bytes)) for a in x.args[:2])
+                if not ok:
+                    return None
+                a, b = x.args[0].value, x.args[1].value
+                a = a.encode('latin1') if isinstance(a, str) else a
+                b = b.encode('latin1') if isinstance(b, str) else b
+                if a and set(a) <= alpha:
+                    alpha = set(alpha) | set(b)
+        return alpha
+    for fn in fns:
+        alpha = apply(fn, alpha)
+        if alpha is None:
+            rep.error('cannot read how %s transforms the command name'
+                      % fn.qname)
+            return
+    shown = ''.join(sorted(chr(c) for c in alpha if 32 < c < 127))
+    for name, what in sorted(PROTECTED_NAMES.items()):
+        rep.evaluations += 1
+        outside = [ch for ch in name if ord(ch) not in alpha]
+        rep.check(bool(outside), 'R7.11', fns[1].qname,
+                  '`%s` cannot be spelled by a client' % name,
+                  'a client can send a command line that the dispatcher '
+                  'turns into `%s` (%s): it runs out of protocol order, '
+                  'with no MAIL / RCPT / DATA before it' % (name, what),
+                  loc=fns[1].loc(), reason='%r not in the command alphabet '
+                  '[%s]' % (outside[:1], shown))
+
+
+# ------------------------------------------------------------------ R7.12
+def r712(e: Engine, rep: Report):
+    ctx = e.method_ctx(SERVER, 'handle')
+    g = e.build(ctx, inline=e.inline_same_self(
+        deny=['_handle_command', '_call_custom_handler', '_recv_command']),
+        max_depth=3, raises=lambda b, n, r: {'ANY'} if n.kind == 'call'
+        and e.call_name(n) == '_handle_command' else set())
+    where = ctx.func.qname
+    rep.functions.add(where)
+    disp = [n for n in g.calls() if e.call_name(n) == '_handle_command']
+    if not disp:
+        rep.error('anchor vanished: _handle_command in Server.handle')
+        return
+    hs = [h for h in g.of_kind('handler')]
+    n = 0
+    for h in hs:
+        # arms that can catch what the dispatch raises
+        covers = any(sc.kind in ('try', 'try_body') or True for sc in h.scopes)
+        tnode = h.ast
+        if not isinstance(tnode, ast.ExceptHandler):
+            continue
+        # the try statement this arm belongs to encloses the dispatch
+        owner = None
+        for fr in {x.frame for x in g.nodes}:
+            for t in walk_own(fr.ctx.func.node):
+                if isinstance(t, ast.Try) and any(hh is tnode
+                                                  for hh in t.handlers):
+                    owner = t
+        if owner is None or not any(
+                any(y is d.ast for y in ast.walk(st))
+                for st in owner.body for d in disp):
+            continue
+        names = ast.unparse(tnode.type) if tnode.type is not None else ''
+        if 'StopIteration' in names:
+            continue       # the handlers' own "end of session" signal
+        n += 1
+        rep.evaluations += 1
+        # can the arm be left normally (fall through / continue)?
+        resumes = dataflow.find_path(
+            g, h, lambda x: x in disp or (
+                x.kind == 'call' and e.call_name(x) == '_recv_command'),
+            edge_ok=lambda a, l, s: not isinstance(l, tuple))
+        rep.check(resumes is None, 'R7.12', where,
+                  'except %s around the dispatch ends the session' % (
+                      names or '<bare>'),
+                  'after `except %s` the main loop goes on to the next '
+                  'command: the handler that raised may have been left '
+                  'half-way (callback run, reply not sent, transaction '
+                  'flags not reset), so the next command is judged against '
+                  'a state no completed command produced' % (names or ''),
+                  loc=h.loc(), reason='arm ends in raise / return / break',
+                  witness=dataflow.render_path(resumes, 12) if resumes
+                  else None)
+    if n < 2:
+        rep.error('anchor vanished: except arms around the dispatch in '
+                  'Server.handle (%d < 2)' % n)
